@@ -18,6 +18,7 @@ func init() {
 			ruleX4(c)
 			ruleX5(c)
 			ruleX6(c)
+			ruleM6(c) // the table mux.Close walks holds every open connection: a stale handle cannot unregister a live one
 		},
 		explanation: "Decides the fail-stop structure of the multiplexer: every exit of the reader loop other than the one taken on the done channel is preceded on every path by latching the error and closing the mux (including the queue-overflow branch), and a partially written frame does the same in write; every close() of a channel stored in a struct field of the net and multiplex packages runs inside a sync.Once body or under a lock behind a test-and-set flag; every blocking receive of those packages has a channel that some close path closes (a connection's Read selects on its done channel, which conn.close closes, which mux.Close calls for every registered connection; Accept's channel is closed by Close); Write tests the done channel before writing, the first error is latched once and error() never yields nil; closing the mux is never reachable with its own once or the connection lock already held.",
 		notDecided: []string{
@@ -274,6 +275,17 @@ func ruleX2(c *Ctx) {
 					}
 					fa, ok := ld.X.(*ssa.FieldAddr)
 					if !ok {
+						continue
+					}
+					// the flag is read under the same exclusive lock as the close is made (a test made under a read
+					// lock, or before the lock is taken, lets two closers both see "not closed")
+					sameLock := false
+					for l := range held {
+						if !strings.HasPrefix(l.Name, "once:") && l.Mode == 'W' && la.heldAt(ld)[l] {
+							sameLock = true
+						}
+					}
+					if !sameLock {
 						continue
 					}
 					// the same flag is set to true on this path
